@@ -30,9 +30,17 @@ Record interp := {
   aint : nat -> list (list Z) -> list Z    (* aggregators: bound-column tuples -> results *)
 }.
 
-Definition env := list (var * Z).
-Fixpoint lookup (e : env) (x : var) : option Z :=
-  match e with [] => None | (y, v) :: e' => if Nat.eqb x y then Some v else lookup e' x end.
+(* environments are positional (variable x lives at position x): two orders of binding
+   distinct variables give EQUAL environments, which makes the simple-join swap a plain equality *)
+Definition env := list (option Z).
+Definition lookup (e : env) (x : var) : option Z := nth x e None.
+Fixpoint bind (x : var) (v : Z) (e : env) : env :=
+  match x, e with
+  | O, [] => [Some v]
+  | O, _ :: e' => Some v :: e'
+  | S n, [] => None :: bind n v []
+  | S n, o :: e' => o :: bind n v e'
+  end.
 
 Fixpoint eval_vars (e : env) (xs : list var) : option (list Z) :=
   match xs with
@@ -57,7 +65,7 @@ Definition sat_cond (I : interp) (e : env) (c : cond) : option env :=
   match c with
   | CIf p xs => match eval_vars e xs with Some vs => if pint I p vs then Some e else None | None => None end
   | CBind x f xs => match eval_vars e xs with
-                    | Some vs => match bint I f vs with Some v => Some ((x, v) :: e) | None => None end
+                    | Some vs => match bint I f vs with Some v => Some (bind x v e) | None => None end
                     | None => None end
   end.
 
